@@ -277,7 +277,13 @@ def check(ctx, op, param, a, build_b, va=None, together=None, compute=None, comp
 
     compute = compute or _default_compute
     compute_many = compute_many or _default_compute_many
-    same = same or same_value
+    same_ = same or same_value
+
+    def same(x, y):
+        try:
+            return bool(same_(x, y))
+        except Exception:  # noqa: BLE001  (values that cannot be compared: fall back to their text)
+            return repr(x) == repr(y)
 
     def alone(colls):
         return [compute(colls[0])] if len(colls) == 1 else list(compute_many(colls))
